@@ -116,7 +116,13 @@ impl Future for StatusFuture {
       #[cfg(feature = "verif_hooks")]
       verif::after_check();
       self.0.waker.register(cx.waker());
-      Poll::Pending
+      // the source may have terminated (flag stored, `wake()` called on an
+      // empty waker) between the check above and the registration: look again
+      if self.0.is_closed() {
+        Poll::Ready(NormalReturn::new(()))
+      } else {
+        Poll::Pending
+      }
     }
   }
 }
